@@ -343,6 +343,51 @@ def run(rep, pdb, tier):
                 "ordered comparison of a magnitude with a constant stops at once on every polynomial whose coefficients are uniformly small (p and c*p have the same roots)",
                 not bad_s, bad_s[0] if bad_s else lg["body"], "returns inside the iteration: %d, guarded by an absolute threshold: %d" % (len(rets), len(bad_s)),
                 where=loc(bad_s[0]) if bad_s else loc(lg["body"]))
+    # ---- a Newton correction divides the value by the FIRST derivative of the Horner sweep
+    rule_n = ("where a Horner sweep accumulates b <- x*b + a_j (the value), d <- x*d + b (the first derivative), f <- x*f + d (half the second derivative), a correction "
+              "`x - b / q` (or `x -= b / q`) divides by d: dividing the value by another accumulator of the sweep is not Newton's step (b / f tends to p'(r)/(3a) at an inflection-point root)")
+    n_sweeps, n_corr, bad_c = 0, 0, []
+    for f_ in pdb.local_fns():
+        if f_.get("file") != "src/polynomial/mod.rs" or f_.get("body") is None:
+            continue
+        cf = Ctx.for_fn(pdb, f_)
+        try:
+            ef = [e for e in effects(pdb, cf) if e.kind == "assign" and e.loops and e.target[0] == "var"]
+        except Exception:
+            continue
+        roles = {}
+        changed = True
+        while changed:
+            changed = False
+            for e in ef:
+                v = e.value
+                if e.target in roles or not (v[0] == "op" and v[1] == "+"):
+                    continue
+                for prod, add in ((v[2], v[3]), (v[3], v[2])):
+                    if prod[0] == "op" and prod[1] == "*" and e.target in (prod[2], prod[3]):
+                        if add[0] == "idx":
+                            roles[e.target] = 0
+                            changed = True
+                        elif add in roles:
+                            roles[e.target] = roles[add] + 1
+                            changed = True
+        if 0 in roles.values() and 1 in roles.values():
+            n_sweeps += 1
+        if not roles:
+            continue
+        for n_ in walk(f_["body"]):
+            if n_.get("k") == "Binary" and n_.get("op") == "/" and not in_macro(n_):
+                par = n_.get("_p") or {}
+                while par.get("k") == "Paren" or (par.get("k") == "Block" and not par.get("stmts")):
+                    par = par.get("_p") or {}
+                minus = (par.get("k") == "Binary" and par.get("op") == "-" and strip(par.get("r")) is n_) or (par.get("k") == "AssignOp" and par.get("op") in ("-=", "-") and strip(par.get("r")) is n_)
+                num_, den_ = cf.term(n_["l"]), cf.term(n_["r"])
+                if minus and roles.get(num_) == 0 and den_ in roles:
+                    n_corr += 1
+                    if roles[den_] != 1:
+                        bad_c.append(n_)
+    rep.add("newton-correction", rule_n, not bad_c, bad_c[0] if bad_c else ps["body"], "Horner sweeps with value and derivative accumulators: %d; corrections value / accumulator: %d; not by the first derivative: %d" % (
+        n_sweeps, n_corr, len(bad_c)), where=loc(bad_c[0]) if bad_c else loc(ps["body"]))
     # ---- polish
     rule = "refinement runs laguer on each poly_roots[j], j in 0..degree, against a clone of the undeflated coefficients that is never written"
     lag = pdb.fn("%s::laguer" % PC)
